@@ -158,7 +158,126 @@ CHECKS.update({
                 '(plus explicit ticks)', ref='§3 C20'),
 })
 
+CHECKS.update({
+    'C06': dict(engine='GRID+FAULT+SCHED', tech='bounded-exhaustive '
+                'enumeration of block bodies x raise points x injected '
+                'failure positions + stateless exploration of all '
+                'interleavings with blocks as composite operations',
+                text='Every block body of length <= 2 (<= 3 thorough) over 11 '
+                'elements (inline/file-backed writes, removals, queue '
+                'operations, a nested block that raises and is caught) from '
+                'three initial states is run with a raise after every prefix '
+                'and a failure injected at every statement/file operation '
+                'inside it: rows and value files must be exactly as before; '
+                'committed blocks match the reference; Deque/Index/'
+                'FanoutCache.transact likewise; a block against a reader, a '
+                'writer or another block (own and shared objects, Fanout '
+                'pairs) is explored over all interleavings as one composite '
+                'operation.',
+                note='failing COMMIT not modelled; reads/writes of the shared '
+                '_txn_id are scheduling points when the object is shared',
+                ref='§3 C06'),
+    'C07': dict(engine='CRASH', tech='exhaustive kill-point enumeration with '
+                'real SIGKILL of a forked worker, recovery judged against the '
+                'reference model of completed operations',
+                text='For 37 workloads (every mutating Cache method over '
+                'inline and file-backed values, bulk removals, transaction '
+                'blocks, Deque and Index operations, the first open of a new '
+                'directory) a forked worker is killed before every database '
+                'statement and every file create/write/close/remove and '
+                'directory create/remove; a handle opened before the kill and '
+                'handles opened afterwards must see the old or the new state '
+                '(bulk removals: anything between), read every present key, '
+                'write at once, and check(fix=True) must leave a clean cache.',
+                note='kills land on shim-level event boundaries; instants '
+                'inside one SQLite call are left to SQLite\'s own recovery; '
+                'process death, not power loss', ref='§3 C07'),
+    'C08': dict(engine='FAULT+SEQ+SCHED', tech='exhaustive single-fault '
+                'enumeration over every event of every operation + BFS + all '
+                'interleavings, judged by an independent bookkeeping audit',
+                text='For 37 (operation, initial state) cases and 4 '
+                'unencodable-value cases a failure is injected at every '
+                'database statement and file operation in turn; a BFS covers '
+                'a full-API alphabet incl. committing and aborting blocks; '
+                'the end state of every interleaving of file-handling '
+                'operation pairs is audited: len = rows, size = sum of file '
+                'sizes, every referenced file exists with its size, no '
+                'unreferenced file, check() silent.',
+                note='a fault injected into a file removal leaves a file the '
+                'library cannot delete (waived for that fault only); failing '
+                'COMMIT/ROLLBACK not modelled', ref='§3 C08'),
+    'C13': dict(engine='SEQ+GRID', tech='explicit-state BFS of FanoutCache '
+                'against the single-cache reference + bounded-exhaustive '
+                'routing enumeration across fresh interpreters and recorded '
+                'routing',
+                text='The C03 slices run on FanoutCache for shard counts '
+                '1,2,3,8,13 (aggregates as multisets, every stored key in the '
+                'shard it routes to); every key of the key alphabet x '
+                'protocols is hashed in three fresh interpreters '
+                '(PYTHONHASHSEED 0/1/random) and compared with routing '
+                'recorded from the pinned commit; data written by another '
+                'interpreter is found; numerically equal keys are compared '
+                'for every shard count 1..16; size_limit division.',
+                note='', ref='§3 C13'),
+    'C14': dict(engine='FAULT', tech='exhaustive enumeration of lock-'
+                'contention scenarios per operation against an '
+                'unchanged-state oracle',
+                text='For every data operation of Cache, FanoutCache, '
+                'DjangoCache, Deque and Index (inline and file-backed values, '
+                'retry on/off, statistics/LRU settings): the write lock is '
+                'held by another connection before the call, taken at every '
+                'event position of the call, or released before BEGIN attempt '
+                '1 or 2; Cache must raise Timeout (bulk: Timeout(n) with n = '
+                'items removed) and change nothing, retrying calls must wait '
+                'and then give the uncontended result and state, sharded '
+                'caches must report through their return value, lock-free '
+                'lookups must keep working.',
+                note='contender = second SQLite connection in the same '
+                'thread, busy timeout 0', ref='§3 C14'),
+    'C16': dict(engine='GRID+SEQ', tech='bounded-exhaustive enumeration of '
+                'call signatures grouped by stored key + explicit-state BFS '
+                'over call histories',
+                text='12691 call signatures per configuration (<= 3 '
+                'positional, <= 2 keyword arguments over None/1/1.0/a/b/True) '
+                'x typed x 6 ignore sets x name given/derived are grouped by '
+                'the stored key: a group may only hold one call; same-named '
+                'functions in different scopes get different keys; call '
+                'histories through Cache/FanoutCache/Index/DjangoCache.'
+                'memoize and memoize_stampede return what the function '
+                'returns, hit within expiry, store nothing at expiry 0.',
+                note='memoize_stampede recompute thread run inline', ref='§3 C16'),
+    'C17': dict(engine='GRID', tech='bounded-exhaustive enumeration of '
+                'damage combinations with a repair-convergence oracle',
+                text='Every compatible subset (size <= 3, <= 4 thorough) of 20 '
+                'out-of-band damage instances on Cache, each shard of a '
+                'FanoutCache, a relatively-addressed cache and a cache with '
+                '151 file-backed items: plain check() reports every damage '
+                'and changes nothing, check(fix=True) reports no less, a '
+                'second check() is silent, remaining items are readable and '
+                'undamaged ones untouched.',
+                note='', ref='§3 C17'),
+    'C18': dict(engine='SEQ+GRID', tech='explicit-state BFS with handle '
+                'events + bounded-exhaustive settings grid + replay of a '
+                'golden directory written by the pinned release',
+                text='Histories interleaving data operations with reopen, '
+                'second handle, pickle round trip, close-then-use and '
+                'operations run in a forked child or another thread (Cache, '
+                'FanoutCache) must match the reference and keep the creation '
+                'settings; each value of each setting survives reopening and '
+                'unpickling (Cache, FanoutCache, JSONDisk); every item of the '
+                'golden v5.6.3 directories (Cache, queue, FanoutCache with '
+                'recorded shards, Deque, Index, JSONDisk) is read through '
+                'every accessor.',
+                note='Disk class is an argument, not a stored setting',
+                ref='§3 C18'),
+})
+
 ENGINES = [
+    ('FAULT', 'mc/fault.py', 'deviation-bounded environment answers: the '
+     'n-th statement / file operation fails, or a contended BEGIN times out, '
+     'for every n'),
+    ('CRASH', 'mc/crash.py', 'real SIGKILL of a forked worker before every '
+     'shim-level event, recovery by surviving and fresh handles'),
     ('SEQ', 'mc/seq.py', 'explicit-state BFS over API histories executed on '
      'the real library, reference-model oracle, canonical-state dedup'),
     ('GRID', 'mc/props/c01.py', 'bounded-exhaustive product of input/config '
